@@ -174,6 +174,38 @@ def real_deccall_form(req):
     return canon_bound(ps, d)
 
 
+@functools.lru_cache(maxsize=20000)
+def decorated_form2(ps, form, order, st, other):
+    """posoargs(end=st) stacked with kwoargs(*other) (form 'end'), or kwoargs(start=st) stacked with
+    posoargs('self', *other) (form 'start'), in either order, on a method"""
+    f = base_func((core.P('self', 'pk'),) + tuple(ps))
+    try:
+        with warnings.catch_warnings():
+            warnings.simplefilter('ignore')
+            if form == 'end':
+                a, b = modifiers.posoargs(end=st), modifiers.kwoargs(*other)
+            else:
+                a, b = modifiers.kwoargs(start=st), modifiers.posoargs('self', *other)
+            dec = b(a(f)) if order == 'form-inner' else a(b(f))
+    except Exception as e:  # noqa
+        return core.canon_exc(e)
+    return ('ok', type('C', (_Self,), {'m': dec}), None)
+
+
+def real_deccall_form2(req):
+    op, order, st, other, args, kw, ps = req
+    r = decorated_form2(tuple(ps), 'end' if op == 'deccallend2m' else 'start', order, st, tuple(other))
+    if r[0] == 'err':
+        return r
+    a, k = call_values(args, kw)
+    try:
+        d = r[1]().m(*a, **k)
+        d = {x: v for x, v in d.items() if x != 'self'}
+    except TypeError:
+        return ('typeerror',)
+    return canon_bound(ps, d)
+
+
 def real_prepare(req):
     _, P, W, ps = req
     r = decorated(tuple(ps), tuple(P), tuple(W))
@@ -231,7 +263,7 @@ def real_makeup(req):
 OPS = {'bindcall': real_bindcall, 'bindcallsig': real_bindcallsig, 'deccall': real_deccall, 'deccallm': real_deccall,
        'prepare': real_prepare, 'startnames': real_names, 'endnames': real_names, 'autonames': real_names,
        'makeup': real_makeup, 'deccallendm': real_deccall_form, 'deccallstartm': real_deccall_form,
-       'deccallst': real_deccall_stacked}
+       'deccallst': real_deccall_stacked, 'deccallend2m': real_deccall_form2, 'deccallstart2m': real_deccall_form2}
 
 
 # ----------------------------------------------------------------------------- functools.partial (C19)
